@@ -117,6 +117,9 @@ def check_C08(tier, seed):
     # a close whose first datagrams are lost while the peer keeps sending: it has to be said again
     for i in range(150 if quick else 1000):
         scripts.append(scen.lifecycle_closelost(r, len(scripts)))
+    # a close while the handshake is under way: nothing the application said leaves below 1-RTT protection
+    for i in range(250 if quick else 2500):
+        scripts.append(scen.lifecycle_earlyclose(r, len(scripts)))
     mcs = [("MC_Lifecycle.tla", "MC_Lifecycle.cfg"),
            ("LifecyclePair.tla", "MC_LifecyclePair.cfg" if quick else "MC_LifecyclePair5.cfg")]
     res = generic("C08", tier, seed, mcs, scripts,
